@@ -142,6 +142,10 @@ Print Assumptions C01_grad_correct_gyration.
 Theorem C01_bias_force_correct_harmonic : forall k cs ws x0, terms_ok fst cs ws -> bias_force_correct (BHarmonic k cs) ws x0.
 Proof. exact bias_force_correct_harmonic. Qed.
 Print Assumptions C01_bias_force_correct_harmonic.
+(* ... and on a periodic variable (restraint metric = shortest image of value - centre) away from the half-period cut *)
+Theorem C01_bias_force_correct_harmonic_periodic : forall k cs ws x0, terms_ok_h cs ws x0 -> bias_force_correct (BHarmonic k cs) ws x0.
+Proof. exact bias_force_correct_harmonic_gen. Qed.
+Print Assumptions C01_bias_force_correct_harmonic_periodic.
 Theorem C01_bias_force_correct_linear : forall k cs ws x0, terms_ok fst cs ws -> bias_force_correct (BLinear k cs) ws x0.
 Proof. exact bias_force_correct_linear. Qed.
 Print Assumptions C01_bias_force_correct_linear.
@@ -193,3 +197,6 @@ Example C01_example_cell : image_ok true (Some (8, 8, 8)) (0, 0, 0) (5, 1, 1) /\
 Proof. exact ex_image_cell. Qed.
 Example C01_example_hill : hill_ok [mkCvar 1 false 0 []] [3] (2, [(0%nat, (1, 2))]) /\ abmd_diff Rops false 3 5 <> 0.
 Proof. exact ex_hill. Qed.
+(* the periodic disjunct of the harmonic guard is inhabited: value 10, centre 350, period 360 (image +20) *)
+Example C01_example_periodic : var_ok_h (mkVar 1 true 360 0) 10 350.
+Proof. exact ex_periodic. Qed.
